@@ -22,6 +22,7 @@ from .. import exec_props as X
 from ..execworld import ExecImpl, node_s, val_s
 from ..impl import mx, quiet, err_kind
 from ..shadow import real_chain
+from .. import c05_argfail
 from modelx.core.errors import FormulaError
 
 CFG = {
@@ -386,6 +387,16 @@ KNOWN_SHARED_EXC = "C05-shared-exception-object"
 KNOWN_SELF_ASSIGN = "C05-own-assignment-then-failure"
 
 
+ARGFAIL_ASPECTS = ("carry", "traceback", "state", "retry")
+ARGFAIL_RULE = ("; family arg-failure (plain modelx, harness/mxh/c05_argfail.py): a callee, cached or uncached, called with an "
+                "int / str / tuple / list / dict / set (unhashable kinds: uncached callee) fails itself or through 1-3 cells below "
+                "it (every cached/uncached assignment), called directly, by a cached and by an uncached caller that builds the "
+                "argument, with eight exception kinds; histories of failing calls, the same calls with arguments that do not "
+                "fail, retries; oracle from the definitions alone: FormulaError carrying the original exception, a usable "
+                "traceback listing the executing chain, quiescent executor, no failed element held, held values and graph "
+                "nodes right, results equal to a fresh model's")
+
+
 def run(ctx, out):
     sc = translation_scenarios()
     if ctx.tier != "thorough":
@@ -394,6 +405,13 @@ def run(ctx, out):
     stats = X.run_family(ctx, out, CFG, oracle, 150, 2500, structured=scenarios() + sc)
     python_level(out, stats)
     out.coverage["input_distribution"]["python_level_scenarios"] = stats["python_level_scenarios"]
+    # failures below arguments of every kind: callee cached / uncached x int, str, tuple, list, dict, set x failure 0..3
+    # cells below x every cached/uncached assignment there x direct call / cached caller / uncached caller x exception kinds
+    c05_argfail.run_all(ctx, out, stats, "C05", ARGFAIL_ASPECTS, n_random=ctx.n(30, 600))
+    for k in sorted(stats):
+        if k.startswith("argfail"):
+            out.coverage["input_distribution"][k] = stats[k]
+    out.coverage["rule"] += ARGFAIL_RULE
     out.assumptions.append("'does not crash the interpreter' is a CPython C-stack fact: exercised (depth-limit cases), not proved")
 
 
@@ -402,5 +420,8 @@ def replay(ctx, payload, out):
     h = payload.get("history") or {}
     if isinstance(h, dict) and h.get("scenario") == "python-level":
         python_level(out, collections.Counter())
+        return
+    if isinstance(h, dict) and h.get("scenario") == c05_argfail.SCENARIO:
+        c05_argfail.replay(h, out, "C05", ARGFAIL_ASPECTS)
         return
     X.replay_family(ctx, payload, out, CFG, oracle)
